@@ -61,7 +61,7 @@ def run(chk):
     got = bilinear_identity(chk, lib, 'R4.1', ext=True)   # range guards are C05's subject
     if got is not None:
         chk.sample({"bilinear lane value (first 300 chars)": str(got)[:300]})
-    b = anchor(chk, lib, 'interp2d::Interp2D::index_point', 'R4.2')
+    b = anchor(chk, lib, 'Interp2D::index_point', 'R4.2')
     if b is not None:
         try:
             out = deref_all(Interp(lib, KModel()).call_def(b['def'], [Ref(ValPlace(interp2d_obj(Unit()))), Num(Rat.atom('a')), Num(Rat.atom('b'))]))
@@ -72,7 +72,7 @@ def run(chk):
             chk.ob('R4.2', "index_point(a,b) == (x[a], y[b], data[a,b]) (got %r)" % (out,), ok, b['span'], 'index_point2d')
         except Exception as ex:
             chk.ob('R4.2', "Interp2D::index_point is plain indexing: %s" % ex, False, getattr(ex, 'where', ''), 'index_point2d')
-    b = anchor(chk, lib, 'interp2d::Interp2D::get_index_left_of', 'R4.2')
+    b = anchor(chk, lib, 'Interp2D::get_index_left_of', 'R4.2')
     if b is not None:
         m = KModel()
         try:
